@@ -1,6 +1,6 @@
 (* C19: the inheritance chain -- every RowCreatedSignal of a successful
    creation is delivered after the INSERTs of all levels. *)
-From Coq Require Import List ZArith NArith Bool Lia.
+From Coq Require Import List ZArith NArith Bool Lia Arith.
 From Model Require Import Events.
 From Proofs Require Import EventsBase.
 Import ListNotations.
@@ -118,3 +118,254 @@ Proof.
   destruct (chain_create t l kw s) as [[s' o] tr]. simpl in *. subst o. reflexivity.
 Qed.
 
+(* ================================================================== *)
+(* updates of chain instances                                          *)
+
+(* ------------------------------------------------------------------ recv_of over the pieces *)
+Lemma recv_app {K} keq s (a : K) (x y : list (ev K)) : recv_of keq s a (x ++ y) = recv_of keq s a x ++ recv_of keq s a y.
+Proof. unfold recv_of. apply flat_map_app. Qed.
+Lemma recv_sig_events {K} keq s (a : K) s' k id L kw :
+  recv_of keq s a (sig_events s' k id L kw) = if sig_eqb s s' && keq a k then map fst L else [].
+Proof.
+  revert kw. induction L as [|l r IH]; intros kw; cbn [sig_events map].
+  - destruct (sig_eqb s s' && keq a k); reflexivity.
+  - unfold recv_of in *. cbn [flat_map]. rewrite IH. destruct (sig_eqb s s' && keq a k); reflexivity.
+Qed.
+Lemma recv_run_posts {K} keq s (a : K) s' k id ts : recv_of keq s a (run_posts s' k id ts) = [].
+Proof. unfold run_posts, recv_of. induction ts as [|x r IH]; cbn [map flat_map]; [reflexivity|exact IH]. Qed.
+Lemma recv_after_part {K} keq s (a : K) tab s' k id :
+  recv_of keq s a (after_part tab s' k id) = if sig_eqb s s' && keq a k then map fst (sel s' tab) else [].
+Proof. unfold after_part. rewrite recv_app, recv_sig_events, recv_run_posts, app_nil_r. reflexivity. Qed.
+Lemma recv_write {K} keq s (a : K) (w : write K) : recv_of keq s a [EWrite w] = [].
+Proof. reflexivity. Qed.
+
+Lemma recv_nil {K} keq s (a : K) : recv_of keq s a [] = [].
+Proof. reflexivity. Qed.
+Lemma rounds_0 L : rounds 0 L = [].
+Proof. reflexivity. Qed.
+Lemma rounds_1 L : rounds 1 L = map fst L.
+Proof. unfold rounds. cbn [repeat concat]. apply app_nil_r. Qed.
+Lemma rounds_add m n L : rounds (m + n) L = rounds m L ++ rounds n L.
+Proof. unfold rounds. rewrite repeat_app, concat_app. reflexivity. Qed.
+
+(* ------------------------------------------------------------------ the setters against the closed form *)
+Lemma kw_ok_le l c : existsb (fun a => col_eqb c (own a)) (lineage l) = lvl_le (owner c) l.
+Proof. destruct l, c; reflexivity. Qed.
+Lemma owner_own l : owner (own l) = l.
+Proof. destruct l; reflexivity. Qed.
+Lemma lvl_eqb_eq a b : lvl_eqb a b = true <-> a = b.
+Proof. destruct a, b; simpl; split; intros H; try reflexivity; try discriminate. Qed.
+
+Lemma uassign_at_ok t l id c v s :
+  lvl_le (owner c) l = true ->
+  uassign_at t (lineage l) id c v s =
+    if negb (val_ok (col_ty c) v)
+    then (Some XInvalid,
+          flat_map (fun a => sig_events SUpdate a (Some id) (sel SUpdate (ltab t a)) [(c, v)]) (path_to l (owner c)), s)
+    else (None, uspec_assign t l id c v, store id s (c, v)).
+Proof.
+  unfold uspec_assign, store.
+  destruct l, c; try discriminate; intros _;
+    cbn [uassign_at lineage owner lvl_eqb path_to filter lvl_le existsb orb flat_map fst snd];
+    destruct (negb (val_ok _ v)); cbn [fst snd]; rewrite ?app_nil_r, <- ?app_assoc; reflexivity.
+Qed.
+
+Lemma uextras_ok t l id : forall extra s,
+  forallb (fun p => lvl_le (owner (fst p)) l) extra = true ->
+  fst (fst (uextras t (lineage l) id extra s)) = None ->
+  uextras t (lineage l) id extra s
+  = (None, flat_map (fun p => uspec_assign t l id (fst p) (snd p)) extra, fold_left (store id) extra s).
+Proof.
+  induction extra as [|[c v] r IH]; intros s Hle; [reflexivity|].
+  cbn [forallb fst] in Hle. apply andb_true_iff in Hle. destruct Hle as [Hc Hr].
+  cbn [uextras flat_map fold_left fst snd]. rewrite (uassign_at_ok _ _ _ _ _ _ Hc).
+  destruct (negb (val_ok (col_ty c) v)); cbn [fst snd]; [discriminate|].
+  intros H. rewrite (IH _ Hr) in *.
+  - reflexivity.
+  - destruct (uextras t (lineage l) id r (store id s (c, v))) as [[e tr] s']. cbn [fst snd] in *. exact H.
+  - destruct (uextras t (lineage l) id r (store id s (c, v))) as [[e tr] s']. cbn [fst snd] in *. exact H.
+Qed.
+
+Lemma forallb_filter {A} (f g : A -> bool) l : forallb f l = true -> forallb f (filter g l) = true.
+Proof.
+  induction l as [|x r IH]; simpl; [reflexivity|]. intros H. apply andb_true_iff in H. destruct H as [H1 H2].
+  destruct (g x); simpl; [rewrite H1|]; auto.
+Qed.
+Lemma kw_ok_forall l kw : chain_kw_ok l kw = true -> forallb (fun p => lvl_le (owner (fst p)) l) kw = true.
+Proof.
+  unfold chain_kw_ok. induction kw as [|p r IH]; cbn [forallb]; [reflexivity|].
+  intros H. apply andb_true_iff in H. destruct H as [H1 H2]. rewrite kw_ok_le in H1. rewrite H1, (IH H2). reflexivity.
+Qed.
+
+(* a successful update is the closed form: trace and rows *)
+Lemma chain_step_update t s o s' id tr :
+  is_uupdate o = true -> chain_step t s o = (s', CDone id, tr) -> tr = uspec t o /\ s' = uspec_state o s.
+Proof.
+  destruct o as [l kw|l id0 c v|l id0 kw0]; [discriminate| |]; intros _; unfold chain_step.
+  - destruct (negb (has_handle s l id0) || negb (chain_kw_ok l [(c, v)])) eqn:G; [discriminate|].
+    apply orb_false_iff in G. destruct G as [_ G]. apply negb_false_iff in G.
+    unfold chain_kw_ok in G. cbn [forallb fst] in G. rewrite andb_true_r, kw_ok_le in G.
+    rewrite (uassign_at_ok _ _ _ _ _ _ G). unfold ures_out.
+    destruct (negb (val_ok (col_ty c) v)); cbn [fst snd]; intros H; inversion H; split; reflexivity.
+  - destruct (negb (has_handle s l id0) || negb (chain_kw_ok l (mk_kw kw0))) eqn:G; [discriminate|].
+    apply orb_false_iff in G. destruct G as [_ G]. apply negb_false_iff in G.
+    unfold uset, ures_out, uspec, uspec_state.
+    set (kw := mk_kw kw0) in *.
+    set (own_kw := filter (fun p => lvl_eqb (owner (fst p)) l) kw).
+    set (extra := filter (fun p => negb (lvl_eqb (owner (fst p)) l)) kw).
+    destruct (negb (validate own_kw)); cbn [fst snd]; [discriminate|].
+    assert (Hx : forallb (fun p => lvl_le (owner (fst p)) l) extra = true)
+      by (apply forallb_filter, kw_ok_forall; exact G).
+    destruct (fst (fst (uextras t (lineage l) id0 extra s))) eqn:E; cbn [fst snd]; [discriminate|].
+    rewrite (uextras_ok _ _ _ _ _ Hx E). cbn [fst snd].
+    intros H. inversion H. split; [reflexivity|].
+    destruct (kw_get (own l) own_kw); [|reflexivity]. unfold store. cbn [fst snd]. rewrite owner_own. reflexivity.
+Qed.
+
+(* ------------------------------------------------------------------ who receives what, how often *)
+Lemma recv_assign t l id c v s a :
+  recv_of lvl_eqb s a (uspec_assign t l id c v) = rounds (uowed_assign l c a s) (sel s (ltab t a)).
+Proof.
+  unfold uspec_assign.
+  destruct l, c, a;
+    cbn [lineage owner path_to filter lvl_le existsb lvl_eqb orb flat_map];
+    repeat rewrite recv_app; rewrite ?recv_sig_events, ?recv_after_part, ?recv_write;
+    destruct s; cbn [sig_eqb lvl_eqb andb uowed_assign lvl_le lineage existsb orb owner b2n app];
+    rewrite ?rounds_0, ?rounds_1, ?app_nil_r; reflexivity.
+Qed.
+
+Lemma recv_extras t l id s a : forall extra,
+  recv_of lvl_eqb s a (flat_map (fun p => uspec_assign t l id (fst p) (snd p)) extra)
+  = rounds (list_sum (map (fun p => uowed_assign l (fst p) a s) extra)) (sel s (ltab t a)).
+Proof.
+  induction extra as [|p r IH]; [reflexivity|].
+  cbn [flat_map map list_sum fold_right]. fold (list_sum (map (fun p : col * val => uowed_assign l (fst p) a s) r)). rewrite recv_app, recv_assign, IH, rounds_add. reflexivity.
+Qed.
+
+Lemma recv_uspec t o s a :
+  is_uupdate o = true -> recv_of lvl_eqb s a (uspec t o) = rounds (uowed o a s) (sel s (ltab t a)).
+Proof.
+  destruct o as [l kw|l id c v|l id kw0]; [discriminate| |]; intros _.
+  - apply recv_assign.
+  - unfold uspec, uowed. repeat rewrite recv_app. rewrite recv_extras, recv_after_part, rounds_add.
+    assert (Hw : recv_of lvl_eqb s a
+                   (if is_nil (filter (fun p => lvl_eqb (owner (fst p)) l) (mk_kw kw0)) then []
+                    else [EWrite (WUpdate l id (sort_cols (filter (fun p => lvl_eqb (owner (fst p)) l) (mk_kw kw0))))]) = [])
+      by (destruct (is_nil _); reflexivity).
+    rewrite Hw. cbn [app].
+    destruct l; cbn [parent]; rewrite ?recv_sig_events, ?recv_nil;
+      destruct s, a; cbn [sig_eqb lvl_eqb andb b2n app]; rewrite ?rounds_0, ?app_nil_r; cbn [app];
+      try reflexivity; rewrite <- ?rounds_1; rewrite <- ?rounds_add; f_equal; lia.
+Qed.
+
+(* ------------------------------------------------------------------ histories *)
+Definition is_ustep (t : tabs) (r : urec) : Prop :=
+  chain_step t (ur_pre r) (ur_op r) = (ur_post r, ur_out r, ur_tr r).
+Lemma chain_hist_is_step t : forall ops s r, In r (chain_steps t s ops) -> is_ustep t r.
+Proof.
+  induction ops as [|o rest IH]; intros s r H; simpl in H; [contradiction|].
+  destruct H as [H|H]; [|exact (IH _ _ H)]. subst r. unfold is_ustep. cbn [ur_pre ur_op ur_post ur_out ur_tr].
+  destruct (chain_step t s o) as [[s' out] tr]. reflexivity.
+Qed.
+
+Lemma chain_hist_update t ops r id :
+  In r (chain_steps t cinit ops) -> is_uupdate (ur_op r) = true -> ur_out r = CDone id ->
+  ur_tr r = uspec t (ur_op r)
+  /\ ur_post r = uspec_state (ur_op r) (ur_pre r)
+  /\ forall s a, recv_of lvl_eqb s a (ur_tr r) = rounds (uowed (ur_op r) a s) (sel s (ltab t a)).
+Proof.
+  intros Hin Hu Ho. pose proof (chain_hist_is_step t ops cinit r Hin) as Hs. unfold is_ustep in Hs. rewrite Ho in Hs.
+  destruct (chain_step_update _ _ _ _ _ _ Hu Hs) as [H1 H2]. split; [exact H1|split; [exact H2|]].
+  intros s a. rewrite H1. apply recv_uspec. exact Hu.
+Qed.
+
+(* the updates that involve one class only behave like those of a plain class *)
+Lemma root_no_extra kw :
+  chain_kw_ok LA kw = true -> filter (fun p => negb (lvl_eqb (owner (fst p)) LA)) kw = [].
+Proof.
+  unfold chain_kw_ok. induction kw as [|[c v] r IH]; cbn [forallb filter fst]; [reflexivity|].
+  intros H. apply andb_true_iff in H. destruct H as [H1 H2].
+  destruct c; cbn in H1; try discriminate. cbn [owner lvl_eqb negb]. exact (IH H2).
+Qed.
+
+Lemma chain_step_set_kw t s l id0 kw0 s' id tr :
+  chain_step t s (USet l id0 kw0) = (s', CDone id, tr) -> chain_kw_ok l (mk_kw kw0) = true.
+Proof.
+  unfold chain_step. destruct (chain_kw_ok l (mk_kw kw0)); [reflexivity|]. rewrite orb_true_r. discriminate.
+Qed.
+
+Lemma uplain_owed t s o s' id tr a sg :
+  chain_step t s o = (s', CDone id, tr) -> uplain o = true -> (sg = SUpdate \/ sg = SUpdated) ->
+  uowed o a sg = b2n (lvl_eqb a (uop_lvl o)).
+Proof.
+  destruct o as [l kw|l id0 c v|l id0 kw0]; cbn [uplain uop_lvl]; [discriminate| |]; intros Hst H Hs.
+  - apply lvl_eqb_eq in H. unfold uowed, uowed_assign. rewrite H.
+    destruct Hs; subst sg; [|reflexivity]. destruct l, a; reflexivity.
+  - apply lvl_eqb_eq in H. subst l. unfold uowed.
+    rewrite (root_no_extra _ (chain_step_set_kw _ _ _ _ _ _ _ _ Hst)).
+    destruct Hs; subst sg; cbn; rewrite ?Nat.add_0_r; reflexivity.
+Qed.
+
+Ltac oa2_rw :=
+  repeat rewrite ordered_around_app; repeat rewrite existsb_app;
+  rewrite ?no_write_sig_events, ?no_write_after_part;
+  rewrite ?(no_other_sig_events SUpdated SUpdate) by reflexivity;
+  rewrite ?(no_other_sig_after_part _ SUpdate SUpdated) by reflexivity;
+  rewrite ?(ordered_around_nowrite _ _ (sig_events _ _ _ _ _)) by apply no_write_sig_events;
+  rewrite ?(ordered_around_nowrite _ _ (after_part _ _ _ _)) by apply no_write_after_part.
+Ltac oa2 := oa2_rw; cbn [ordered_around existsb is_write is_sig orb andb negb]; oa2_rw; reflexivity.
+
+Lemma uspec_ordered_plain t s o s' id tr :
+  chain_step t s o = (s', CDone id, tr) -> uplain o = true -> ordered_around SUpdate SUpdated (uspec t o) = true.
+Proof.
+  destruct o as [l kw|l id0 c v|l id0 kw0]; cbn [uplain]; [discriminate| |]; intros Hst Hp.
+  - unfold uspec, uspec_assign.
+    destruct l, c; try discriminate;
+      cbn [owner lineage path_to filter lvl_le existsb lvl_eqb orb flat_map]; rewrite app_nil_r; oa2.
+  - apply lvl_eqb_eq in Hp. subst l. unfold uspec.
+    rewrite (root_no_extra _ (chain_step_set_kw _ _ _ _ _ _ _ _ Hst)). cbn [flat_map app parent].
+    destruct (is_nil _); cbn [app]; oa2.
+Qed.
+
+Lemma uplain_is_update o : uplain o = true -> is_uupdate o = true.
+Proof. destruct o; [discriminate|reflexivity|reflexivity]. Qed.
+
+(* an update that involves one class only: the receivers of that class get the
+   before-event once, in registration order, then the UPDATE, then the
+   after-event once; no other class hears of it *)
+Lemma chain_hist_plain t ops r id :
+  In r (chain_steps t cinit ops) -> uplain (ur_op r) = true -> ur_out r = CDone id ->
+  (forall s, s = SUpdate \/ s = SUpdated -> forall a,
+     recv_of lvl_eqb s a (ur_tr r) = if lvl_eqb a (uop_lvl (ur_op r)) then map fst (sel s (ltab t a)) else [])
+  /\ ordered_around SUpdate SUpdated (ur_tr r) = true.
+Proof.
+  intros Hin Hp Ho. pose proof (uplain_is_update _ Hp) as Hu.
+  destruct (chain_hist_update t ops r id Hin Hu Ho) as [H1 [_ H3]].
+  pose proof (chain_hist_is_step t ops cinit r Hin) as Hs. unfold is_ustep in Hs. rewrite Ho in Hs.
+  split.
+  - intros s Hsig a. rewrite H3, (uplain_owed _ _ _ _ _ _ a s Hs Hp Hsig).
+    destruct (lvl_eqb a (uop_lvl (ur_op r))); [apply rounds_1|apply rounds_0].
+  - rewrite H1. exact (uspec_ordered_plain _ _ _ _ _ _ Hs Hp).
+Qed.
+
+(* creations inside mixed histories *)
+Lemma chain_hist_created_after t ops r l kw id :
+  In r (chain_steps t cinit ops) -> ur_op r = UCreate l kw -> ur_out r = CDone id ->
+  created_after_inserts (ur_tr r) = true
+  /\ inserts_of (ur_tr r) = map (fun a => (a, id)) (rev (lineage l))
+  /\ (forall a, In a (lineage l) -> has_row id (ctable (ur_post r) a) = true).
+Proof.
+  intros Hin Hop Ho. pose proof (chain_hist_is_step t ops cinit r Hin) as Hs. unfold is_ustep in Hs.
+  rewrite Ho, Hop in Hs. cbn [chain_step] in Hs. exact (chain_created_after _ _ _ _ _ _ _ Hs).
+Qed.
+
+(* a history of creations only is a chain_run *)
+Lemma chain_hist_creates t : forall ops s,
+  map (fun r => (uop_lvl (ur_op r), ur_out r, ur_tr r, ur_post r))
+      (chain_steps t s (map (fun p => UCreate (fst p) (snd p)) ops))
+  = map (fun r => (cr_lvl r, cr_out r, cr_tr r, cr_post r)) (chain_run t s ops).
+Proof.
+  induction ops as [|[l kw] rest IH]; intros s; [reflexivity|].
+  cbn [map chain_steps chain_run chain_step fst snd ur_op ur_out ur_tr ur_post cr_lvl cr_out cr_tr cr_post uop_lvl].
+  rewrite IH. reflexivity.
+Qed.
